@@ -475,6 +475,7 @@ func addV(d *pktgen.Desc, clause, key, detail string, replay map[string]any) {
 	if d.ManyEmpty() && strings.Contains(key, "decode fails") {
 		key += " [a name with 4+ zero-length components]"
 	}
+	key += d.SizeWord() // signature-size dimension: which length form, signature as long as / shorter than the estimate
 	idx, _ := replay["case_index"].(int64)
 	atomic.AddInt64(&nViol, 1)
 	violCase.Store(idx, true)
@@ -1366,6 +1367,13 @@ func main() {
 	_, sweepDone := enum.Range(int64(len(sweep)), deadline, func(i int64) { runSweep(i, sweep[i], thorough) })
 
 	lap("outer_length_sweep")
+	// signature-size pass (sigsize.go): small, must not fall to the time cap
+	szDeadline := deadline
+	if m := time.Now().Add(40 * time.Second); szDeadline.Before(m) {
+		szDeadline = m
+	}
+	szN, szDone, szComplete := runSigSizePass(thorough, szDeadline)
+	lap("signature_sizes")
 	// ECDSA repetition pass (small, runs before the big enumeration)
 	type repCase struct {
 		label string
@@ -1401,7 +1409,7 @@ func main() {
 	lap("held_packets")
 
 	done, complete := enum.Range(int64(len(cases)), deadline, func(i int64) { evalCase(sp, i, cases[i], thorough) })
-	complete = complete && repDone && heldComplete
+	complete = complete && repDone && heldComplete && szComplete
 	lap("enumeration")
 	complete = complete && sweepDone
 	flushPending()
@@ -1449,6 +1457,7 @@ func main() {
 			"rule":                                              "every base x every ECDSA signer mode x payload size such that the estimated outer length is each target; each case signed until 3 different signature lengths were seen or 24 builds",
 		},
 		"held_packets":         heldCoverage(heldN, heldDone),
+		"signature_sizes":      sigSizeCoverage(szN, szDone),
 		"wall_seconds_by_pass": passWall,
 		"stale_digest_name_without_parameters_rejected_by_decoder_(allowed)": st.mayReject,
 		"cpu_seconds_by_phase_and_class": map[string][3]float64{ // class: every-cut packets, quick-tier 2-deviation small packets, >400 B packets
